@@ -7,8 +7,9 @@ from ..core import Disc, Subcheck, exc_detail, exc_key
 
 PROPERTY_ID = 'C18'
 LEVEL = 'exploration'
-RULE = ('strings: every string of length 0..5 (quick) / 0..6 (thorough) over the 9-symbol alphabet a 1 _ . - : / e-acute '
-        'space (one representative per character class), enumerated exhaustively and given to all five validators; '
+RULE = ('strings: every string of length 0..5 (quick) / 0..6 (thorough) over the 10-symbol alphabet a 1 _ . - : / e-acute '
+        'space newline (one representative per character class; the newline because `$` in a regular expression also '
+        'matches before a trailing one), enumerated exhaustively and given to all five validators; '
         'random strings to length 300 over a wider alphabet; names built by construction at the 254/255/256 byte '
         'boundary; oracle: hand-written recognisers of the spec grammar (refcodec), validator returns <=> recogniser '
         'accepts, every rejection is MarshallingError. ctor: each message class x each name-carrying argument x '
@@ -17,7 +18,7 @@ RULE = ('strings: every string of length 0..5 (quick) / 0..6 (thorough) over the
         'distinct = distinct string / constructor case.')
 ASSUMPTIONS = ['refcodec recognisers are the trusted statement of the grammar (self-tested on every run)']
 
-ALPHABET = ['a', '1', '_', '.', '-', ':', '/', 'é', ' ']
+ALPHABET = ['a', '1', '_', '.', '-', ':', '/', 'é', ' ', '\n']
 KINDS = [
     ('path', 'validateObjectPath', R.is_object_path),
     ('iface', 'validateInterfaceName', R.is_interface_name),
@@ -126,14 +127,16 @@ def classify_string(case):
     return nt, labels
 
 
-_wide = st.text(alphabet=st.sampled_from(list('abzAZ_09.-:/ \x00é\U0001F600')), max_size=300)
+_wide = st.text(alphabet=st.sampled_from(list('abzAZ_09.-:/ \x00\n\r\té\U0001F600')), max_size=300)
 
 
 @st.composite
 def boundary_name(draw):
     """Names of exactly 254/255/256 bytes in one- and two-element shapes, plus random long ones."""
-    kind = draw(st.sampled_from(['member', 'iface', 'bus', 'unique', 'path', 'wide', 'mutated']))
+    kind = draw(st.sampled_from(['member', 'iface', 'bus', 'unique', 'path', 'wide', 'mutated', 'mutated', 'affixed', 'affixed']))
     n = draw(st.sampled_from([253, 254, 255, 256, 257]))
+    if kind == 'affixed':
+        return {'s': draw(affixed_name(draw(st.sampled_from(['path', 'member', 'iface', 'error', 'bus']))))}
     if kind == 'member':
         return {'s': 'm' * n}
     if kind == 'iface':
@@ -151,7 +154,7 @@ def boundary_name(draw):
     base = draw(st.one_of(S.interface_name(), S.bus_name, S.member_name(), S.object_path))
     pos = draw(st.integers(0, len(base)))
     ed = draw(st.sampled_from(['ins', 'del', 'sub']))
-    ch = draw(st.sampled_from(list('.:-/1 _aé')))
+    ch = draw(st.sampled_from(list('.:-/1 _aé\n\n\r\t\x00\x0b\u2028')))
     if ed == 'ins':
         s = base[:pos] + ch + base[pos:]
     elif ed == 'del':
@@ -159,6 +162,17 @@ def boundary_name(draw):
     else:
         s = base[:pos] + ch + base[pos + 1:]
     return {'s': s}
+
+
+@st.composite
+def affixed_name(draw, kind):
+    """A valid name of the given kind with one foreign character put in front or behind (what anchored regular
+    expressions, strip() calls and C-string habits get wrong)."""
+    valid = {'path': S.object_path, 'member': S.member_name(), 'iface': S.interface_name(),
+             'error': S.error_name(), 'bus': S.bus_name}[kind]
+    base = draw(valid)
+    ch = draw(st.sampled_from(['\n', '\n', '\r', '\r\n', '\t', ' ', '\x00', '\x0b', '\u2028', '.', '/', ':', '-']))
+    return base + ch if draw(st.integers(0, 3)) else ch + base
 
 
 # --------------------------------------------------------------------------
@@ -179,7 +193,7 @@ REC = {k: rec for k, _, rec in KINDS}
 def ctor_case(draw):
     cls = draw(st.sampled_from(sorted(CTOR_ARGS)))
     arg = draw(st.sampled_from(CTOR_ARGS[cls]))
-    mode = draw(st.sampled_from(['valid', 'invalid', 'invalid', 'empty', 'short']))
+    mode = draw(st.sampled_from(['valid', 'invalid', 'invalid', 'affixed', 'empty', 'short']))
     kind = ARG_KIND[arg]
     valid = {'path': S.object_path, 'member': S.member_name(), 'iface': S.interface_name(),
              'error': S.error_name(), 'bus': S.bus_name}[kind]
@@ -189,6 +203,8 @@ def ctor_case(draw):
         v = ''
     elif mode == 'short':
         v = draw(st.text(alphabet=st.sampled_from(ALPHABET), max_size=5))
+    elif mode == 'affixed':
+        v = draw(affixed_name(kind))
     else:
         v = draw(boundary_name())['s']
     return {'cls': cls, 'arg': arg, 'value': v}
@@ -246,7 +262,7 @@ def classify_ctor(case):
 SUBCHECKS = [
     Subcheck('strings', run_string, classify_string, enumerate=enum_strings,
              shards={'quick': 4, 'thorough': 16},
-             exhaustive_note='every string of length 0..5 (quick) / 0..6 (thorough) over a 9-class alphabet x 5 validators'),
+             exhaustive_note='every string of length 0..5 (quick) / 0..6 (thorough) over a 10-class alphabet x 5 validators'),
     Subcheck('long', run_string, classify_string, strategy=lambda tier: boundary_name(),
              n={'quick': 500, 'thorough': 4000}),
     Subcheck('ctor', run_ctor, classify_ctor, strategy=lambda tier: ctor_case(),
